@@ -2,6 +2,7 @@ package props
 
 import (
 	"fmt"
+	"iter"
 	"regexp"
 	"sort"
 	"strings"
@@ -16,7 +17,7 @@ import (
 func init() {
 	register(&Prop{
 		ID: "C12", Level: "exploration",
-		Rule: "one case = 1-3 client tasks and an optional writer task under the seeded scheduler; every request carries a unique token in every observable field (parameter values, path, query string, request header, host label) and its handler derives response header, status and body length from the token; request shapes are drawn from direct match, ignored trailing slash (parameters come from the slash-adjusted copy), redirect, 404/405/OPTIONS handlers, manual Lookup with and without Close, CloneWith and Clone; handlers yield so that other requests start, finish and recycle contexts in between, and the writer task replaces the tree between requests (contexts are pooled per tree version). Oracle inside every handler, before and after each yield: every Context getter shows the current request's token and nothing of another request; writer status/size/written start clean; route, pattern, scope as the reference dispatcher says. A Clone taken in request A is re-inspected after every later request of its task and at the end: identical to its first fingerprint and free of any other token (including response headers). Non-trivial: a context was re-observed after another task ran, or a clone was re-inspected after a later request; distinct = hash of (programs, schedule).",
+		Rule: "one case = 1-3 client tasks and an optional writer task under the seeded scheduler; every request carries a unique token in every observable field (parameter values, path, query string, request header, host label) and its handler derives response header, status and body length from the token; request shapes are drawn from direct match, ignored trailing slash (parameters come from the slash-adjusted copy), redirect, 404/405/OPTIONS handlers, manual Lookup with and without Close, CloneWith and Clone; iterator sequences (Iter.Reverse/Routes/Prefix) obtained earlier by the task and ranged again inside a later handler or while a Lookup context is held (must yield what they yielded first and leave the request's context alone); handlers yield so that other requests start, finish and recycle contexts in between, and the writer task replaces the tree between requests (contexts are pooled per tree version). Oracle inside every handler, before and after each yield: every Context getter shows the current request's token and nothing of another request; writer status/size/written start clean; route, pattern, scope as the reference dispatcher says. A Clone taken in request A is re-inspected after every later request of its task and at the end: identical to its first fingerprint and free of any other token (including response headers). Non-trivial: a context was re-observed after another task ran, or a clone was re-inspected after a later request; distinct = hash of (programs, schedule).",
 		Run:  runC12, Quick: 64000, Thorough: 9600000,
 		Real:   []string{"request Context and its reset variants", "sync.Pool recycling per tree version (deterministic: GOMAXPROCS=1, GC off during a run)", "Clone/CloneWith", "ServeHTTP dispatch", "recorder ResponseWriter"},
 		Stub:   commonStub,
@@ -45,6 +46,9 @@ func otherTokens(s, own string) []string {
 
 // ctxFingerprint reads every getter of a context.
 func ctxFingerprint(c fox.Context) string {
+	if c.Request() == nil || c.Writer() == nil {
+		return fmt.Sprintf("<context without request or writer: request=%v writer=%v>", c.Request() != nil, c.Writer() != nil)
+	}
 	var ps []string
 	for p := range c.Params() {
 		ps = append(ps, p.Key+"="+p.Value)
@@ -58,6 +62,22 @@ func ctxFingerprint(c fox.Context) string {
 	return fmt.Sprintf("params[%s] param(a)=%s pattern=%s route#%d scope=%d method=%s path=%s host=%s q=%s qp=%s hdr=%s reqhdr=%s status=%d size=%d written=%v resphdr[%s] urlpath=%s",
 		strings.Join(ps, ","), c.Param("a"), c.Pattern(), world.TagOf(c.Route()), c.Scope(), c.Method(), c.Path(), c.Host(), c.QueryParam("tok"), c.QueryParams().Get("tok"),
 		c.Header("X-Token"), req.Header.Get("X-Token"), c.Writer().Status(), c.Writer().Size(), c.Writer().Written(), strings.Join(rh, ";"), req.URL.Path)
+}
+
+// c12Seq is an iterator sequence obtained earlier and kept by its task: ranging it again later must neither change
+// what it yields nor touch the context of the request in flight (lookup-backed sequences use pooled contexts).
+type c12Seq struct {
+	what  string
+	seq   iter.Seq2[string, *fox.Route]
+	first string
+}
+
+func collectSeq(seq iter.Seq2[string, *fox.Route]) string {
+	var out []string
+	for m, r := range seq {
+		out = append(out, fmt.Sprintf("%s %s#%d", m, r.Pattern(), world.TagOf(r)))
+	}
+	return strings.Join(out, " | ")
 }
 
 type c12Clone struct {
@@ -97,17 +117,18 @@ func runC12(src sim.Source, o Opts) *Result {
 		}
 		set.Insert(world.ModelRoute(cfg, r.Method, p, i+1, world.RouteOpt{}))
 	}
-	shapes := []string{"lookup-clone", "direct", "direct", "tsr", "redirect-or-ignore", "notfound", "nomethod", "options", "lookup", "lookup-noclose", "clonewith", "clone", "clone"}
+	shapes := []string{"seq", "lookup-clone", "direct", "direct", "tsr", "redirect-or-ignore", "notfound", "nomethod", "options", "lookup", "lookup-noclose", "clonewith", "clone", "clone"}
 	type reqPlan struct {
 		Shape  string
 		Route  int
 		Yields int
+		Rerange bool // range the task's kept iterator sequences again while this request is in flight
 	}
 	nclients := 1 + src.Intn("clients", 3)
 	plans := make([][]reqPlan, nclients)
 	for c := range plans {
 		for i, n := 0, 2+src.Intn("nreq", 6); i < n; i++ {
-			plans[c] = append(plans[c], reqPlan{Shape: sim.Pick(src, "shape", shapes), Route: src.Intn("route", len(routes)), Yields: src.Intn("yields", 3)})
+			plans[c] = append(plans[c], reqPlan{Shape: sim.Pick(src, "shape", shapes), Route: src.Intn("route", len(routes)), Yields: src.Intn("yields", 3), Rerange: src.Intn("rerange", 3) == 0})
 		}
 	}
 	withWriter := src.Intn("writer", 2) == 1
@@ -119,11 +140,13 @@ func runC12(src sim.Source, o Opts) *Result {
 	fails := make([]string, nclients)
 	reobserved := make([]int, nclients)
 	cloneChecks := make([]int, nclients)
+	seqRanges := make([]int, nclients)
 
 	for ci := 0; ci < nclients; ci++ {
 		ci := ci
 		s.Go(fmt.Sprintf("client%d", ci), func(*sim.Task) {
 			var clones []*c12Clone
+			var kept []*c12Seq
 			fail := func(format string, args ...any) {
 				if fails[ci] == "" {
 					fails[ci] = fmt.Sprintf(format, args...)
@@ -142,6 +165,14 @@ func runC12(src sim.Source, o Opts) *Result {
 					}
 				}
 			}
+			rerange := func(when string) {
+				for _, k := range kept {
+					seqRanges[ci]++
+					if got := collectSeq(k.seq); got != k.first {
+						fail("the sequence %s yields [%s] when ranged again %s, it yielded [%s] the first time", k.what, got, when, k.first)
+					}
+				}
+			}
 			for qi, pl := range plans[ci] {
 				if fails[ci] != "" {
 					break
@@ -150,6 +181,22 @@ func runC12(src sim.Source, o Opts) *Result {
 				r := routes[pl.Route]
 				host, path := r.Mk(tok)
 				method := r.Method
+				if pl.Shape == "seq" {
+					it := w.R.Iter()
+					for _, k := range []*c12Seq{
+						{what: fmt.Sprintf("Iter.Reverse(%s%s)", host, path), seq: it.Reverse(it.Methods(), host, path)},
+						{what: fmt.Sprintf("Iter.Routes(%s)", r.Pattern), seq: it.Routes(it.Methods(), r.Pattern)},
+						{what: "Iter.Prefix(/u)", seq: it.Prefix(it.Methods(), "/u")},
+					} {
+						k.first = collectSeq(k.seq)
+						if k.first == "" {
+							fail("the sequence %s yields nothing", k.what)
+						}
+						kept = append(kept, k)
+					}
+					s.Yield(sim.PtUser)
+					continue
+				}
 				wantKind := model.KRoute
 				switch pl.Shape {
 				case "tsr", "redirect-or-ignore":
@@ -172,6 +219,10 @@ func runC12(src sim.Source, o Opts) *Result {
 				bodyLen := (ci + qi) % 7
 				observe := func(c fox.Context, when string) {
 					fp := ctxFingerprint(c)
+					if c.Request() == nil || c.Writer() == nil {
+						fail("request %s (%s %s%s, %s) %s: %s", tok, method, host, path, pl.Shape, when, fp)
+						return
+					}
 					if ot := otherTokens(fp, tok); len(ot) > 0 {
 						fail("request %s (%s %s%s, %s) %s: the context shows data of %v: %s", tok, method, host, path, pl.Shape, when, ot, fp)
 					}
@@ -202,6 +253,13 @@ func runC12(src sim.Source, o Opts) *Result {
 						s.Yield(sim.PtHandler)
 						reobserved[ci]++
 						observe(c, fmt.Sprintf("after yield %d", y+1))
+					}
+					if pl.Rerange && len(kept) > 0 {
+						rerange("inside the handler of request " + tok)
+						observe(c, "after ranging kept iterator sequences again")
+						if fails[ci] != "" {
+							return
+						}
 					}
 					if pl.Shape == "clone" {
 						cl := &c12Clone{c: c.Clone(), tok: tok}
@@ -259,6 +317,10 @@ func runC12(src sim.Source, o Opts) *Result {
 						break
 					}
 					chk := func(when string) {
+						if cc.Request() == nil || cc.Writer() == nil {
+							fail("request %s: Lookup context %s: %s", tok, when, ctxFingerprint(cc))
+							return
+						}
 						if got := world.FmtParams(world.CollectParams(cc)); got != world.FmtParams(m.Params) {
 							fail("request %s: Lookup context %s has parameters [%s], expected [%s]", tok, when, got, world.FmtParams(m.Params))
 						}
@@ -273,6 +335,10 @@ func runC12(src sim.Source, o Opts) *Result {
 					s.Yield(sim.PtHeld)
 					reobserved[ci]++
 					chk("after a yield")
+					if pl.Rerange && len(kept) > 0 {
+						rerange("while the Lookup context of request " + tok + " is held")
+						chk("after ranging kept iterator sequences again")
+					}
 					if pl.Shape == "lookup-clone" {
 						// a clone of a context obtained from Lookup: the recycled context's embedded recorder still refers to an
 						// earlier request's connection
@@ -360,6 +426,12 @@ func runC12(src sim.Source, o Opts) *Result {
 			if strings.Contains(t.PanicStack, "github.com/tigerwill90/fox.") {
 				res.fail("C12/panic", "task %s panicked: %v", t.Name, t.Panic)
 			} else {
+				for _, f := range fails {
+					if f != "" { // the harness tripped over a context it had already found broken
+						res.fail("C12/leak", "%s", f)
+						return res
+					}
+				}
 				res.Trouble = fmt.Sprintf("task %s panicked in harness code: %v\n%s", t.Name, t.Panic, t.PanicStack)
 			}
 			return res
@@ -370,6 +442,7 @@ func runC12(src sim.Source, o Opts) *Result {
 		total += reobserved[i] + cloneChecks[i]
 		res.add("contexts_reobserved_after_yield", reobserved[i])
 		res.add("clone_reinspections", cloneChecks[i])
+		res.add("kept_sequences_ranged_again", seqRanges[i])
 		if f != "" {
 			res.fail("C12/leak", "%s", f)
 			return res
